@@ -23,7 +23,7 @@ GROUP_ABS = {19: 1, 20: 2}
 
 BASE = dict(MaxTrig=2, MaxDup=1, MaxLoss=0, MaxAdv=0, Triggers=('acquire', 'soft', 'hard', 'rekeyike', 'delike', 'dpd'),
             IkeDh='DhSame', ChildDh='DhNone', CookieThreshold=10, StartEstablished=True, MaxSpi=12,
-            AsPinned_C16=False, KnownToBothOnly=False, FreeRetx=False)
+            AsPinned_C16=False, KnownToBothOnly=False, FreeRetx=False, IdleTimers=False)
 
 SCENARIOS = {
     # established IKE_SA + 1 CHILD_SA, every trigger kind, duplication
@@ -34,6 +34,8 @@ SCENARIOS = {
     'estab_rekey_ke': dict(BASE, IkeDh='DhMismatch', Triggers=('rekeyike', 'soft', 'delike')),
     # PFS without a retry: crossing CREATE_CHILD_SA exchanges (new child / rekey) that both carry KE payloads
     'estab_pfs_same': dict(BASE, ChildDh='DhSame', Triggers=('acquire', 'soft')),
+    # the periodic timers also come due while the IKE_SA is busy / rekeyed / being deleted
+    'estab_idle': dict(BASE, IdleTimers=True, MaxDup=0, Triggers=('rekeyike', 'delike', 'dpd', 'soft')),
     'estab3':     dict(BASE, MaxTrig=3, MaxDup=1),
     'estab3_c09': dict(BASE, MaxTrig=3, MaxDup=1, KnownToBothOnly=True),
     'live':       dict(BASE, MaxTrig=1, MaxDup=0, MaxLoss=1, KnownToBothOnly=True, FreeRetx=True),
@@ -157,6 +159,8 @@ def describe(a):
         return f"CtlAcquire({a['e']})"
     if n == 'CtlExpire':
         return f"CtlExpire({a['e']}, {a['spi']}, hard={a['hard']})"
+    if n == 'TimerIdle':
+        return f"TimerIdle({a.get('s')}, {a.get('which')})"
     return f"{n}({a.get('s')})"
 
 
